@@ -847,13 +847,20 @@ func (c *vfMqClient) Unacked() []uint16 {
 	return ids
 }
 
-// AckAll switches to immediate acks and acknowledges everything outstanding.
+// AckAll switches to immediate acks and acknowledges every QoS1 packet id this connection has
+// seen, also those the reader goroutine has already decided to acknowledge: its PUBACK may still
+// be on its way, and the caller wants "everything acknowledged" to hold before its next write.
 func (c *vfMqClient) AckAll() error {
 	c.SetPolicy(vfMqAckAlways)
-	for _, id := range c.Unacked() {
-		c.mu.Lock()
+	c.mu.Lock()
+	ids := make([]uint16, 0, len(c.order))
+	for id := range c.order {
+		ids = append(ids, id)
 		c.acked[id] = true
-		c.mu.Unlock()
+	}
+	sort.Slice(ids, func(i, j int) bool { return c.order[ids[i]] < c.order[ids[j]] })
+	c.mu.Unlock()
+	for _, id := range ids {
 		if err := c.sendPuback(id); err != nil {
 			return err
 		}
